@@ -2710,9 +2710,9 @@ def _one_info_kwd_attrs(self: fst.FST, static: onestatic, idx: int | None, field
     kwd_patterns = ast.kwd_patterns
 
     if idx % len(kwd_patterns):  # could be negative
-        _, _, ln, col = kwd_patterns[idx - 1].f.loc
+        _, _, ln, col = kwd_patterns[idx - 1].f.pars()
     elif patterns := ast.patterns:
-        _, _, ln, col = patterns[-1].f.loc
+        _, _, ln, col = patterns[-1].f.pars()
     elif ast.__class__ is MatchClass:
         _, _, ln, col = ast.cls.f.loc
     else:
